@@ -49,7 +49,8 @@ def tag(cfg):
 @st.composite
 def stims(draw, cfg, max_ops):
     over = cfg["max_burst"] <= 16 and draw(st.integers(0, 3)) == 0
-    return dict(ops=draw(av.avalon_ops(cfg, max_ops, over_max=over)), slave=draw(av.slave_sched()), idle_clear=draw(st.booleans()))
+    align = cfg["port_dw"] > cfg["avl_dw"] and draw(st.booleans())
+    return dict(ops=draw(av.avalon_ops(cfg, max_ops, over_max=over, align=align)), slave=draw(av.slave_sched()), idle_clear=draw(st.booleans()))
 
 
 def diagnose(run, fs):
@@ -68,9 +69,9 @@ def diagnose(run, fs):
                               i, len(op["data"]), op["addr"], op["gaps"][k], k, t, k, len(op["data"]), sym, first))]
     up = cfg["port_dw"] // cfg["avl_dw"] if cfg["port_dw"] > cfg["avl_dw"] else 1
     fin = run.final
-    if up > 1 and fin["state"] == "BURST_WRITE" and fin["wdata_fifo"] == 0 and m.in_write_burst() is None:
+    if up > 1 and fin["state"] == "BURST_WRITE" and fin["wdata_fifo"] == 0 and (fin["cmd_fifo"] > 0 or m.in_write_burst() is None):
         return [dict(clause="C11.upconv_write_burst_stuck", key="wdata_fifo_empty_cmd_fifo_%s_in_BURST_WRITE" % ("nonempty" if fin["cmd_fifo"] else "empty"),
-                     what="avalon %d -> port %d: after all beats of a write burst were accepted the bridge stays in BURST_WRITE for ever with wdata_fifo.level = 0 and cmd_fifo.level = %d "
+                     what="avalon %d -> port %d: the bridge stays in BURST_WRITE for ever with wdata_fifo.level = 0 and cmd_fifo.level = %d and no beat left that the master could still give "
                           "(the up-converter took the write data ahead of its command; commands are only issued while wdata_fifo.level > 0 and the state is only left on wdata_fifo.level == 1). "
                           "Symptoms: %s. First: %s" % (cfg["avl_dw"], cfg["port_dw"], fin["cmd_fifo"], sym, first))]
     if up > 1 and fin["state"] == "BURST_READ" and fin["conv"] == "FILL" and len(m.r_log) < m.r_expected:
